@@ -208,6 +208,13 @@ Theorem C10_unmarshal_canonical :
 Proof. exact unmarshal_canon. Qed.
 Print Assumptions C10_unmarshal_canonical.
 
+(* an accepted legacy document has one entry per public key (two spellings of one key are refused),
+   so the hypothesis of the legacy theorems holds for whatever unmarshal returns *)
+Theorem C10_unmarshal_v1_wf :
+  forall j c, unmarshal j = Some (CV1 c) -> wf_config1 c.
+Proof. exact unmarshal_v1_wf. Qed.
+Print Assumptions C10_unmarshal_v1_wf.
+
 (* ... every canonical configuration comes back from marshal -> unmarshal as itself ... *)
 Theorem C10_marshal_unmarshal :
   forall c, canon_config c -> unmarshal (marshal c) = Some c.
